@@ -358,7 +358,7 @@ func generate(o *options) (*runOutput, error) {
 	tt := newTypeTable()
 	for _, key := range sortedKeys(specs.Contracts) {
 		c := specs.Contracts[key]
-		if c.Trusted || c.IsMethod || strings.Contains(key, "#") || strings.HasPrefix(key, "functype ") {
+		if c.Trusted || c.IsMethod || strings.Contains(key, "#") || strings.HasPrefix(key, "functype ") || strings.HasPrefix(key, "fieldfunc ") {
 			continue
 		}
 		if !isRepoPkg(c.Pkg.PkgPath) {
